@@ -9,6 +9,7 @@ import (
 	"fmt"
 	"os"
 	"path/filepath"
+	"strings"
 	"testing"
 
 	"github.com/ProtonMail/gluon/store"
@@ -151,7 +152,9 @@ func TestCorruption(t *testing.T) {
 		}
 		defer os.RemoveAll(dir)
 
-		pass := []byte("pass-A")
+		// short passphrases, and long ones (the related wrong passphrases below then share their first 32 / 64 bytes)
+		pass := []byte(rapid.SampledFrom([]string{"pass-A", "pass-A", "a-passphrase-that-is-longer-than-thirty-two-bytes-A",
+			strings.Repeat("k", 31) + "A", strings.Repeat("k", 32), strings.Repeat("long-", 30) + "A"}).Draw(rt, "pass"))
 		format := rapid.SampledFrom([]string{"v1", "v1", "v1", "v1", "v0"}).Draw(rt, "format")
 		// more weight than in the state machine on files of several cipher blocks
 		sp := genSpecW(rt, "content", format == "v1", []int{0, 1, 2, 3, 4, 4, 5, 5, 6, 6, 6, 7, 7, 7, 8, 9, 9, 9},
@@ -527,6 +530,23 @@ func TestCorruption(t *testing.T) {
 		rpass := pass
 		if mut.wrongPass {
 			rpass = []byte("pass-C")
+
+			// mostly a passphrase that is close to the right one: last byte changed, cut to 32 bytes, extended, one byte
+			// cut off, first byte changed
+			switch how := rapid.IntRange(0, 6).Draw(rt, "wrongpass.how"); {
+			case how == 1:
+				rpass = append(append([]byte(nil), pass[:len(pass)-1]...), pass[len(pass)-1]^1)
+			case how == 2 && len(pass) > 32:
+				rpass = append([]byte(nil), pass[:32]...)
+			case how == 3:
+				rpass = append(append([]byte(nil), pass...), "-and-more"...)
+			case how == 4 && len(pass) > 1:
+				rpass = append([]byte(nil), pass[:len(pass)-1]...)
+			case how == 5:
+				rpass = append([]byte{pass[0] ^ 1}, pass[1:]...)
+			}
+
+			labels = append(labels, fmt.Sprintf("wrongpass:%d-of-%d-bytes-shared", commonPrefix(pass, rpass), len(pass)))
 		}
 
 		st, err := openStore(dir, rpass, storeCfg{}, fallbackOpts(fb)...)
@@ -544,6 +564,9 @@ func TestCorruption(t *testing.T) {
 		case gerr == nil && !bytes.Equal(got, orig):
 			fail("Get returned other bytes without an error: got %s, stored %s, first difference at %d",
 				describe(got), describe(orig), firstDiff(got, orig))
+		case gerr == nil && mut.wrongPass && format == "v1" && !bytes.Equal(rpass, pass):
+			fail("the store was reopened with another passphrase (%q instead of %q, %d bytes in common) and Get returned the content without an error",
+				rpass, pass, commonPrefix(pass, rpass))
 		case gerr != nil && unchanged && readable:
 			fail("the file is unchanged but Get fails: %v", gerr)
 		}
@@ -554,4 +577,13 @@ func TestCorruption(t *testing.T) {
 			ev.Class("outcome:original", 1)
 		}
 	})
+}
+
+func commonPrefix(a, b []byte) int {
+	n := 0
+	for n < len(a) && n < len(b) && a[n] == b[n] {
+		n++
+	}
+
+	return n
 }
